@@ -513,13 +513,18 @@ Proof.
   assert (K : unit_boundaryb unit k = true).
   { destruct Hu as [-> | [-> | ->]]; [exact (forall_range_spec _ _ _ H1 k Hk) | exact (forall_range_spec _ _ _ H2 k Hk) | exact (forall_range_spec _ _ _ H3 k Hk)]. }
   unfold unit_boundaryb in K. cbv zeta in K.
-  repeat (apply andb_prop in K; destruct K as [K ?]).
+  rewrite !andb_true_iff in K. destruct K as [[[[[Ka Kb] Kc] Kd] Ke] Kf].
   assert (S : forall N, div_truncb unit N = true -> py_int_trunc (fdiv (total_seconds N) (sf_of_Z unit)) = Ok (Z.quot N (unit * 1000000))).
   { intros N. unfold div_truncb. destruct (py_int_trunc _) as [q|]; [|discriminate]. intros E. apply Z.eqb_eq in E. congruence. }
-  destruct Hd as [-> | [-> | ->]]; split; apply S;
-  repeat match goal with
-         | |- div_truncb _ ?x = true => match goal with Hh : div_truncb _ ?y = true |- _ => replace x with y by lia; exact Hh end
-         end.
+  (* no lia here: zify would normalise the closed reflection hypotheses (minutes) *)
+  clear H1 H2 H3 Hu Hk.
+  destruct Hd as [-> | [-> | ->]]; split.
+  - replace (k * unit * 1000000 + -1) with (k * unit * 1000000 - 1) by ring. exact (S _ Ka).
+  - replace (- (k * unit * 1000000) - -1) with (1 - k * unit * 1000000) by ring. exact (S _ Kd).
+  - replace (k * unit * 1000000 + 0) with (k * unit * 1000000) by ring. exact (S _ Kb).
+  - replace (- (k * unit * 1000000) - 0) with (- (k * unit * 1000000)) by ring. exact (S _ Ke).
+  - exact (S _ Kc).
+  - exact (S _ Kf).
 Qed.
 
 (* ... and around every power of two of k up to the top of the exact range (k*unit < 2^33 s) *)
